@@ -127,6 +127,11 @@ def check(ctx):
             new = vec[1][0]
         elif vec[0] == 'mut' and call_name(vec) == 'push':
             new = vec[3][1]
+        else:
+            pr = seq_norm(v[2][1], b, bi)
+            ones_ = [x for k_, x in (pr or []) if k_ == 'one']
+            if len(ones_) == 1:
+                new = ones_[0]
         site = ctx.site(b, bi)
         if new is None:
             ctx.fail('C17.5', site, 'cannot identify the inserted element: %s' % fmt(vec), key='C17.5|form')
@@ -146,6 +151,11 @@ def check(ctx):
                     got = v2[1][0]
                 elif v2[0] == 'mut' and call_name(v2) == 'push':
                     got = v2[3][1]
+                else:
+                    pr = seq_norm(args[1])
+                    ones_ = [x for k_, x in (pr or []) if k_ == 'one']
+                    if len(ones_) == 1:
+                        got = ones_[0]
             rows[sv] = got
         def salted_form(x):
             s_ = m_call(x, name='add_salt', self_suffix='Envelope') if x is not None else None
@@ -155,7 +165,7 @@ def check(ctx):
         else:
             ctx.fail('C17.5', site, 'inserted element is %s for salted=false and %s for salted=true (expected the assertion / add_salt(assertion))' % (
                 fmt(rows[False]) if rows[False] is not None else 'unreachable', fmt(rows[True]) if rows[True] is not None else 'unreachable'), key='C17.5|table')
-        if vec[0] == 'mut':
+        if vec[0] == 'mut' and call_name(vec) == 'push':
             # duplicate test must be about the very element inserted (C04.3 at this site)
             C04.growth(ctx_proxy(ctx, 'C17.5'), b, tb, bi, vec[3][0], new, site)
 
